@@ -92,6 +92,7 @@ func Shrink(sc *Scenario, test func(*Scenario) bool, deadline time.Time) (*Scena
 			func(c *Cfg) bool { ch := c.SpareCap; c.SpareCap = false; return ch },
 			func(c *Cfg) bool { ch := c.Warm; c.Warm = false; return ch },
 			func(c *Cfg) bool { ch := c.ScribbleResults; c.ScribbleResults = false; return ch },
+			func(c *Cfg) bool { ch := c.ReuseBuf; c.ReuseBuf = false; return ch },
 			func(c *Cfg) bool { ch := c.PkgLimit != 0; c.PkgLimit = 0; return ch },
 			func(c *Cfg) bool { ch := c.PkgNegOff; c.PkgNegOff = false; return ch },
 		}
